@@ -460,6 +460,10 @@ func slowGenBankOriginParser(length int) pars.Parser {
 	}
 }
 
+// maxOriginResidues is the largest number of residues whose last ORIGIN line
+// (60 residues per line) still has a sequence index of at most nine digits.
+const maxOriginResidues = 1000000020
+
 func makeGenbankOriginParser(length int) genbankSubparser {
 	return func(gb *GenBank, depth int) pars.Parser {
 		fieldNameParser := genbankFieldNameParser("ORIGIN", depth)
@@ -472,6 +476,12 @@ func makeGenbankOriginParser(length int) genbankSubparser {
 			// From here on the field is an ORIGIN block: a failure must not be
 			// retried as an unknown field.
 			state.Clear()
+
+			// The block layout has a nine column sequence index: the index of
+			// the last line must not be wider.
+			if length > maxOriginResidues {
+				return pars.NewError("sequence is too long for an ORIGIN block", state.Position())
+			}
 
 			if err := state.Request(toOriginLength(length)); err != nil {
 				return pars.NewError("not enough bytes in state", state.Position())
